@@ -983,7 +983,7 @@ func main() {
 		"seg.PathSegment along every loop-free walk (random timestamps, expiries, MACs, per-link MTUs, peer entries " +
 		"randomly withheld; every sixteenth topology is beaconed by the real beaconing.DefaultExtender instead) -> per case a random (src,dst), random subsets of the segments ending at src / dst / core " +
 		"segments, perturbed by duplicates (same pointer, deep copy), re-beaconed variants with other expiry/MTU, and " +
-		"segments not touching src/dst; each case is run with findAllIdentical true and false. Non-trivial = at least " +
+		"segments not touching src/dst; each case is run with findAllIdentical true and false; then 4-8 goroutines run Combine concurrently on cases with many paths and every result must equal the sequential one. Non-trivial = at least " +
 		"one path returned; distinct by op line"
 	go watchdog(e)
 	if e.Replay != "" {
@@ -1002,6 +1002,7 @@ func main() {
 	casesPer := 6
 	base := int64(1700000000)
 	shapes := map[string]int{}
+	pool := &concPool{}
 	real := 0
 	for ti := 0; ti < nTopo; ti++ {
 		r := vlib.CaseRand(e.Seed, ti)
@@ -1120,8 +1121,10 @@ func main() {
 			c := &caseT{in: input{src: t.ases[src].ia, dst: t.ases[dst].ia, ups: ups, cores: cores, downs: downs}}
 			runCase(e, c)
 			shapes[c.shape]++
+			pool.offer(r, c)
 		}
 	}
+	runConcurrent(e, vlib.CaseRand(e.Seed, nTopo+1), pool, e.N(400, 3000))
 	e.Extra["shapes"] = shapes
 	e.Extra["topologies"] = nTopo
 	e.Extra["topologies_beaconed_by_real_extender"] = real
